@@ -5,7 +5,7 @@
 From Boreal Require Import Base.Prelude Spec.Regex Model.Hir Model.Widen Model.Validator Model.Raw Model.HirScan
   Model.Decomp Model.HexCase
   Proofs.HexScanProofs Proofs.ValidatorProofs Proofs.DecompProofs Proofs.HexProofs Proofs.RawProofs Proofs.WidenProofs
-  Proofs.HexWitnesses.
+  Proofs.SpanProofs Proofs.HexWitnesses.
 From Coq Require Import Sorted.
 
 (* Ordered, one match per offset, for every regex string that goes through the Aho-Corasick pass. *)
@@ -53,6 +53,24 @@ Theorem C03_raw_scan_exact :
     = map (fun s => (s, first_end (flags_of md) mem h s - s))
           (filter (fun s => nonempty (ends (flags_of md) mem h s)) (iota 0 (nlen mem))).
 Proof. exact raw_scan_exact. Qed.
+
+(* length-choice clause where it is a theorem: Greedy kind (inputs within the window) and raw path report the
+   leftmost-first length; raw spans are positive and inside the input *)
+Theorem C03_greedy_length_leftmost_first :
+  forall use_sp d mem max_nb,
+    plain (s_mods d) -> atoms_ok d -> s_kind d = KGreedy -> (exists q, s_pre d = Some q) ->
+    nlen mem <= MAX_SPLIT_MATCH_LENGTH ->
+    Forall (fun y => hd_error (Lens (flags_of (s_mods d)) mem (s_hir d) (fst y)) = Some (snd y))
+           (ac_scan use_sp d mem max_nb).
+Proof. exact greedy_length_leftmost_first. Qed.
+
+Theorem C03_raw_spans_and_choice :
+  forall md h mem max_nb,
+    plain md -> non_nullable md mem h -> nlen mem < max_nb ->
+    Forall (fun y => 0 < snd y /\ fst y + snd y <= nlen mem
+                     /\ hd_error (Lens (flags_of md) mem h (fst y)) = Some (snd y))
+           (raw_scan md h mem max_nb).
+Proof. exact raw_spans_and_choice. Qed.
 
 (* widen_correct: matching the widened HIR on the raw bytes = matching the HIR under the wide reading
    of the reference semantics, for every HIR without \b / \B, every input, every offset: same ends
@@ -132,6 +150,8 @@ Print Assumptions C03_greedy_sound.
 Print Assumptions C03_atomized_sound.
 Print Assumptions C03_atomized_complete.
 Print Assumptions C03_raw_scan_exact.
+Print Assumptions C03_greedy_length_leftmost_first.
+Print Assumptions C03_raw_spans_and_choice.
 Print Assumptions C03_widen_correct.
 Print Assumptions C03_wide_validator_fwd.
 Print Assumptions C03_wide_validator_rev.
